@@ -37,6 +37,7 @@ type Spec struct {
 	Auth        map[string]string `json:"auth,omitempty"`
 	Req         ReqSpec           `json:"req"`
 	Resp        RespSpec          `json:"resp,omitempty"`
+	ReuseInput  bool              `json:"reuse_input,omitempty"`  // response leg: further responses go through the same ResponseValidationInput value
 	MoreReqs    []ReqSpec         `json:"more_reqs,omitempty"`    // request leg: further requests validated before any forwarded body is read
 	More        []RespSpec        `json:"more,omitempty"`         // response leg: further responses validated before any body is read back
 	MapSeed     uint64            `json:"map_seed,omitempty"`     // 0 = sorted map iteration inside the library; else a seeded permutation per site and visit (the neutral run always uses sorted order)
@@ -295,7 +296,7 @@ func Gen(seed uint64, prop, tier string) *Spec {
 	rq := "RQ" + s.Marker
 	d := &s.Doc
 	// security
-	shapes := []string{"", "", "single", "or", "and", "or3", "and_or", "empty_req", "or_empty", "empty_list", "undecl_or", "undecl_and", "undecl_only", "scopes_or", "scopes_or_rev", "scopes_mix"}
+	shapes := []string{"", "", "single", "or", "and", "or3", "and_or", "empty_req", "or_empty", "empty_list", "undecl_or", "undecl_and", "undecl_only", "scopes_or", "scopes_or_rev", "scopes_mix", "nil_slice_ptr"}
 	d.SecOp = simfw.Pick(r, shapes)
 	d.SecDoc = simfw.Pick(r, []string{"", "", "single", "or", "and", "empty_list", "undecl_or"})
 	if prop == "C07" && d.SecOp == "" && d.SecDoc == "" {
@@ -629,5 +630,6 @@ func genResponse(r *simfw.RNG, s *Spec) {
 			s.More = append(s.More, m)
 		}
 		s.ReadReverse = r.Bool()
+		s.ReuseInput = r.Chance(1, 3)
 	}
 }
